@@ -133,6 +133,7 @@ func c02(c *core.Ctx) {
 		c02Components(c)
 		c02CodeWireType(c)
 		c02MessageVerbatim(c)
+		c02TranslatorsExact(c)
 		c.EndRule()
 	}
 	// ---------------------------------------------------------------- R4
@@ -1616,4 +1617,59 @@ func condPos(iff *ssa.If) token.Pos {
 		}
 	}
 	return iff.Pos()
+}
+
+// c02TranslatorsExact: a context→status translator replaces an error only if
+// it IS one of the context sentinels (compared with ==): an error that merely
+// wraps one (errors.Is) may carry a status of its own (GRPCStatus) or a message
+// with '%' in it, and would lose the former and have the latter mangled by the
+// Errorf the translator builds its status with. Every other value is returned
+// as it came.
+func c02TranslatorsExact(c *core.Ctx) {
+	p := c.P
+	n := 0
+	for _, fn := range ctxTranslators(p) {
+		// only the base translators (those that mention the sentinels themselves)
+		mentions := false
+		core.Instrs(fn, func(in ssa.Instruction) {
+			if v, ok := in.(ssa.Value); ok {
+				if g, ok := core.GlobalLoad(v); ok && strings.HasPrefix(g, "context.") {
+					mentions = true
+				}
+			}
+		})
+		if !mentions {
+			continue
+		}
+		n++
+		key := core.FuncName(fn) + ":replaces-only-the-sentinels"
+		bad := ""
+		par := fn.Params[0]
+		for _, call := range core.CallsIn(fn, func(_ *ssa.Call, ci core.CallInfo) bool { return ci.Is("errors.Is") || ci.Is("errors.As") }) {
+			if core.OriginIs(call.Call.Args[0], func(o ssa.Value) bool { return o == ssa.Value(par) }) {
+				bad = "the error is matched with " + core.InfoOf(&call.Call).Full() + ": an error that only wraps a context error (and may carry its own gRPC status) is replaced as well"
+			}
+		}
+		for _, r := range core.Returns(fn) {
+			if core.OriginIs(r.Results[0], func(o ssa.Value) bool { return o == ssa.Value(par) }) {
+				continue // returned as it came
+			}
+			// a replacement: only where the parameter was found identical to a context sentinel
+			g := core.GuardedBy(r, func(f core.Fact) bool {
+				if f.Op != token.EQL {
+					return false
+				}
+				isSent := func(v ssa.Value) bool { gl, ok := core.GlobalLoad(v); return ok && strings.HasPrefix(gl, "context.") }
+				isPar := func(v ssa.Value) bool { return core.OriginIs(v, func(o ssa.Value) bool { return o == ssa.Value(par) }) }
+				return (isSent(f.Y) && isPar(f.X)) || (isSent(f.X) && isPar(f.Y))
+			})
+			if !g && bad == "" {
+				bad = "a replacement status is returned on a path where the error was not found identical (==) to a context sentinel"
+			}
+		}
+		c.Check(bad == "", key, fn.Pos(), "the translator replaces exactly context.Canceled / context.DeadlineExceeded and returns everything else as it came", bad+": the handler's own status is lost (or its message, used as a format string, mangled)")
+	}
+	if n == 0 {
+		c.Fail("translators:exact", token.NoPos, "ANCHOR-MISSING: no context→status translator found")
+	}
 }
